@@ -209,6 +209,23 @@ func runC11(c *core.Ctx) {
 			c.Violate("C11/e2e/score-below-target", fmt.Sprintf("Mine returned nonce %d with score %v < target %v", nonce, s, e.target), cas, "", nil)
 		}
 	})
+	// worker counts: none given, zero, negative, more goroutines than lanes and than cores; GOMAXPROCS 1
+	{
+		data := []byte("worker counts")
+		target := math.Pow(3, 4)/float64(len(data)+8) - 1e-9
+		ws := map[string]*pow.Worker{"New()": pow.New(), "New(0)": pow.New(0), "New(-3)": pow.New(-3), "New(1,5)": pow.New(1, 5), "New(65)": pow.New(65), "New(1000)": pow.New(1000)}
+		for name, w := range ws {
+			var nonce uint64
+			var err error
+			p := core.Catch(func() { nonce, err = w.Mine(context.Background(), data, target) })
+			c.Eval(1)
+			msg := append(append([]byte{}, data...), make([]byte, 8)...)
+			binary.LittleEndian.PutUint64(msg[len(data):], nonce)
+			if p != nil || err != nil || refScoreV1(msg) < target {
+				c.Violate("C11/environment/worker-count", fmt.Sprintf("pow.%s: Mine = %d, %v (panic %v), score %v, target %v", name, nonce, err, p, refScoreV1(msg), target), name, "", nil)
+			}
+		}
+	}
 	// one Worker object used for a whole sequence of calls (alternating a trivially low target, which lets several of
 	// its goroutines succeed at once, and a real one, always with new data): every returned nonce must meet the target of
 	// ITS call. Nothing may survive from one call to the next.
